@@ -260,6 +260,9 @@ pub fn run_one(opts: RunOpts) -> RunResult {
         faults_done: 0,
         crashes_done: 0,
         stall_pct,
+        fuse_pct: if opts.script.is_some() || plan.cfg.probe || std::env::var_os("VMON_NO_PREEMPT").is_some() || Rng::new(mix(opts.seed, 4242)).below(5) != 0 { 0 } else { 60 },
+        fused: false,
+        suppressed: 0,
         cooperative: false,
         aged: None,
         aged_hashes: vec![],
@@ -491,7 +494,7 @@ fn start_plugin(shared: &Shared, local_pk: secp256k1::PublicKey, life: &Life) {
     });
 }
 
-fn deliver(shared: &Shared, mgr: Arc<Mgr>, u: usize, tracked_before: Option<Option<usize>>) {
+fn deliver(shared: &Shared, mgr: Arc<Mgr>, u: usize, tracked_before: Option<Option<usize>>, burn_left: Option<u32>) {
     let params = {
         let mut w = lock(shared);
         let height = w.node.height;
@@ -533,6 +536,9 @@ fn deliver(shared: &Shared, mgr: Arc<Mgr>, u: usize, tracked_before: Option<Opti
                 return;
             }
         };
+        if let Some(left) = burn_left {
+            crate::blocksim::burn(left).await;
+        }
         let resp = mgr.handle_htlc(&req).await;
         let v = serde_json::to_value(&resp).unwrap_or(Value::Null);
         let mut w = lock(&shared);
@@ -655,6 +661,7 @@ fn enabled_steps(w: &World, mgr_up: bool, script: &Option<Script>) -> Vec<(Step,
         v.push((Step::Block(1, 0), 3));
         v.push((Step::Block(1, 1), 2));
         v.push((Step::Block(3, 2), 1));
+        v.push((Step::Block(2, 3), 1));
         v.push((Step::Advance(1000), 3));
         v.push((Step::Advance(10_000), 2));
         v.push((Step::Advance(61_000), 2));
@@ -788,7 +795,7 @@ async fn lifetime(shared: Shared, local_pk: secp256k1::PublicKey, rng: &mut Rng,
     let life = Life { mgr: Arc::new(Mutex::new(None)), watcher: Arc::new(Mutex::new(None)) };
     start_plugin(&shared, local_pk, &life);
     let mut idle_advanced_ms: u64 = 0;
-    let mut last_delivered: Option<usize> = None;
+    let mut last_delivered: Vec<usize> = vec![];
     loop {
         quiesce().await;
         let mgr = life.mgr.lock().unwrap().clone();
@@ -822,7 +829,7 @@ async fn lifetime(shared: Shared, local_pk: secp256k1::PublicKey, rng: &mut Rng,
                     }
                 }
             }
-            if let Some(u) = last_delivered.take() {
+            for u in std::mem::take(&mut last_delivered) {
                 monitors::check_immediate(&mut w, u, tr);
             }
             monitors::after_window(&mut w, tr);
@@ -913,6 +920,46 @@ async fn lifetime(shared: Shared, local_pk: secp256k1::PublicKey, rng: &mut Rng,
                 Step::Advance(jump)
             }
         };
+        // a second event handled at the same instant as a trampoline delivery, whose task is
+        // suspended at one of its first awaits (what another runtime worker does to it)
+        let mut second: Option<Step> = None;
+        let mut burn_left: Option<u32> = None;
+        if script.is_none() {
+            if let Step::Deliver(u) = &step {
+                let mut w = lock(&shared);
+                if w.fuse_pct > 0 && matches!(w.htlcs[*u].spec.label, RefLabel::Tramp { .. }) && rng.below(100) < w.fuse_pct {
+                    let cands: Vec<Step> = steps
+                        .iter()
+                        .map(|(s, _)| s)
+                        .filter(|s| match s {
+                            Step::Deliver(v) => v != u && matches!(w.htlcs[*v].spec.label, RefLabel::Tramp { .. }),
+                            Step::Reply(id) | Step::Apply(id, true) | Step::Fault(id, _) => w.calls.iter().any(|c| c.id == *id && c.method != "getinfo"),
+                            _ => false,
+                        })
+                        .cloned()
+                        .collect();
+                    if !cands.is_empty() {
+                        let s2 = rng.pick(&cands).clone();
+                        let left = rng.below(6) as u32;
+                        let h2 = match &s2 {
+                            Step::Deliver(v) => w.htlcs[*v].hidx,
+                            Step::Reply(id) | Step::Apply(id, _) | Step::Fault(id, _) => w.calls.iter().find(|c| c.id == *id).and_then(|c| c.hidx),
+                            _ => None,
+                        };
+                        let same = h2.is_some() && h2 == w.htlcs[*u].hidx;
+                        let kind = match &s2 { Step::Deliver(_) => 0u64, Step::Reply(_) => 1, Step::Apply(..) => 2, _ => 3 };
+                        w.stats.eval("PREEMPT", kind | ((left as u64) << 2) | ((same as u64) << 5));
+                        w.ev(|| format!("TOGETHER with the next delivery (suspended at await {left}; same hash: {same}): {s2:?}"));
+                        if same {
+                            w.fused = true;
+                        }
+                        w.sig(mix(777, kind | ((left as u64) << 2)));
+                        second = Some(s2);
+                        burn_left = Some(left);
+                    }
+                }
+            }
+        }
         // execute
         {
             let mut w = lock(&shared);
@@ -944,8 +991,18 @@ async fn lifetime(shared: Shared, local_pk: secp256k1::PublicKey, rng: &mut Rng,
         match step {
             Step::Deliver(u) => {
                 let m = mgr.clone().unwrap();
-                deliver(&shared, m, u, tr);
-                last_delivered = Some(u);
+                deliver(&shared, m.clone(), u, if second.is_some() { None } else { tr }, burn_left);
+                last_delivered.push(u);
+                match second.take() {
+                    Some(Step::Deliver(v)) => {
+                        deliver(&shared, m, v, None, None);
+                        last_delivered.push(v);
+                    }
+                    Some(Step::Reply(id)) => reply_call(&shared, id),
+                    Some(Step::Apply(id, f)) => apply_call(&shared, id, f),
+                    Some(Step::Fault(id, kind)) => fault_call(&shared, id, kind),
+                    _ => {}
+                }
             }
             Step::Apply(id, fused) => apply_call(&shared, id, fused),
             Step::Reply(id) => reply_call(&shared, id),
@@ -976,6 +1033,20 @@ async fn lifetime(shared: Shared, local_pk: secp256k1::PublicKey, rng: &mut Rng,
                     }
                     if mode == 2 {
                         tokio::spawn(async move { bw.new_block(&BlockAdded { height: stale }).await });
+                    } else if mode == 3 {
+                        // both new heights notified at the same instant; the notification of the
+                        // lower one is handled first and suspended at its 1st..3rd await
+                        let left = rng.below(3) as u32;
+                        let mut w = lock(&shared);
+                        w.told_height = w.told_height.max(h);
+                        w.ev(|| format!("  notifications {} (suspended at await {left}) and {h} together", h.saturating_sub(1)));
+                        drop(w);
+                        let b = bw.clone();
+                        tokio::spawn(async move {
+                            crate::blocksim::burn(left).await;
+                            b.new_block(&BlockAdded { height: h.saturating_sub(1) }).await
+                        });
+                        tokio::spawn(async move { bw.new_block(&BlockAdded { height: h }).await });
                     }
                 }
             }
